@@ -10,7 +10,7 @@ import (
 // C16: statement separation; whitespace substitution and comments in whitespace gaps are neutral.
 
 var wsSubst = []string{"\t", "\n", "\r", "\r\n", "  ", " \t\n "}
-var commentSubst = []string{" /*c*/ ", " -- c\n ", "\n-- x y z\n", " /* a * / b */ ", "\t/**/\t", " /* -- */ "}
+var commentSubst = []string{" /*c*/ ", " -- c\n ", "\n-- x y z\n", " /* a * / b */ ", "\t/**/\t", " /* -- */ ", " /***/ ", " /****/ ", " /*** banner ***/ ", " /* ** * ***/ ", " --\n ", " /* \n */ "}
 
 // posOfOffset: line/char of a byte offset in an ASCII, CR-free text
 func posOfOffset(text string, off int) influxql.Pos {
@@ -180,6 +180,32 @@ func propC16(o *out, r *rng, thorough bool) {
 	}
 	for i := 0; i < nq; i++ {
 		c16Query(o, r)
+	}
+	// every statement kind directly followed by a single separator and another statement
+	for _, kind := range stmtKinds {
+		reps := 6
+		if kind == "names" || kind == "simple" || kind == "showstats" {
+			reps = 40
+		}
+		for i := 0; i < reps; i++ {
+			t, _, _ := genStatement(r, kind, true)
+			st, err := influxql.ParseStatement(t)
+			if err != nil {
+				continue
+			}
+			for _, sep := range []string{";", " ; "} {
+				qt := t + sep + "SHOW DATABASES"
+				q, qerr, _ := addParseQueryCase(o, qt, nil)
+				o.checked()
+				o.count("followed")
+				rp := map[string]interface{}{"op": "query", "text": qt}
+				if qerr != nil {
+					o.fail("", fmt.Sprintf("ParseQuery(%q) fails although both statements parse alone: %v", qt, qerr), rp)
+				} else if len(q.Statements) != 2 || stmtSexp(q.Statements[0]) != stmtSexp(st) {
+					o.fail("", fmt.Sprintf("ParseQuery(%q) does not yield the two statements: %s", qt, q.String()), rp)
+				}
+			}
+		}
 	}
 	{ // witness of finding C16-slash-after-source-follow
 		w := "SELECT x FROM m;/* c */ SELECT y FROM n"
